@@ -217,3 +217,65 @@ func (f *faultReader) Read(b []byte) (int, error) {
 	}
 	return f.r.Read(b)
 }
+
+// StalePool emulates what a caching pool (lake's fspool keeps ONE open reader and hands it out again, at whatever
+// position it was left, when the same file is asked for twice in a row) may legally do: when GetReadSeeker is called
+// for the file that was handed out last, the reader is first moved to a PRNG-chosen position (end of file, middle,
+// 1, random). GetReader keeps starting at 0, as fspool's does. Consumers of GetReadSeeker have to seek themselves.
+type StalePool struct {
+	Inner lake.Pool
+	Rng   *Rng
+	mu    sync.Mutex
+	last  int64
+	has   bool
+	Moved int64
+}
+
+func (p *StalePool) GetSize(i int64) int64 { return p.Inner.GetSize(i) }
+func (p *StalePool) Close() error {
+	p.mu.Lock()
+	p.has = false
+	p.mu.Unlock()
+	return p.Inner.Close()
+}
+func (p *StalePool) GetReader(i int64) (io.Reader, error) {
+	p.mu.Lock()
+	p.last, p.has = i, true
+	p.mu.Unlock()
+	return p.Inner.GetReader(i)
+}
+func (p *StalePool) GetReadSeeker(i int64) (io.ReadSeeker, error) {
+	rs, err := p.Inner.GetReadSeeker(i)
+	if err != nil {
+		return nil, err
+	}
+	p.mu.Lock()
+	defer p.mu.Unlock()
+	if p.has && p.last == i {
+		size := p.Inner.GetSize(i)
+		var off int64
+		switch p.Rng.Intn(4) {
+		case 0:
+			off = size
+		case 1:
+			off = size / 2
+		case 2:
+			off = 1
+		default:
+			off = p.Rng.Range64(0, size)
+		}
+		if off > size {
+			off = size
+		}
+		if _, err := rs.Seek(off, io.SeekStart); err != nil {
+			return nil, err
+		}
+		p.Moved++
+	}
+	p.last, p.has = i, true
+	return rs, nil
+}
+
+// TargetPoolWrap, when set, wraps the old-build pool that ApplyFresh / OverlayApply hand to the patcher and both
+// pools of the optimizer (set per case by a property, like StoredOldSig).
+var TargetPoolWrap PoolWrap
